@@ -44,7 +44,8 @@ NextId(st) == st.nreq + 1
 UserTasks(st) == {[t |-> "uread", id |-> NextId(st)],
                   [t |-> "cmd", id |-> NextId(st), mode |-> "do", step |-> "do", ob |-> "a"],
                   [t |-> "cmd", id |-> NextId(st), mode |-> "sbo", step |-> "select", ob |-> "a"],
-                  [t |-> "restart", id |-> NextId(st)]}
+                  [t |-> "restart", id |-> NextId(st)],
+                  [t |-> "link", id |-> NextId(st)]}
 
 Timers(st) == LET d == NextTimer(st, st.now + 100000)
               IN IF d = NoTime THEN {} ELSE {[k |-> "adv", dt |-> (d - st.now) + 5]}
@@ -63,8 +64,9 @@ InputsResp(st) ==
                   [k |-> "rx", f |-> [Resp(CurSeq(st), 1, "echo", {}) EXCEPT !.con = TRUE]],
                   [k |-> "rx", f |-> Resp(CurSeq(st), 1, "hdrbad", {})]}
             \cup {[k |-> "rx", f |-> Unsol(q, 1, b, {})] : q \in {0, 1}, b \in {"empty", "data"}}
-            \cup {[k |-> "rx", f |-> Unsol(0, 0, "data", {})]})
-    \cup Timers(st) \cup {[k |-> "adv", dt |-> 3]}
+            \cup {[k |-> "rx", f |-> Unsol(0, 0, "data", {})]}
+            \cup {[k |-> "rx", f |-> F(-1, 0, TRUE, TRUE, FALSE, FALSE, 1, {}, "link", 0)]})
+    \cup Timers(st) \cup {[k |-> "adv", dt |-> 3], [k |-> "adv", dt |-> 600]}
     \cup (IF st.pc # "Down" THEN {[k |-> "disable"]} ELSE {}) \cup (IF ~st.enabled THEN {[k |-> "enable"]} ELSE {})
 
 InputsStartup(st) ==
@@ -111,18 +113,19 @@ TypeOK == s.pc \in {"Down", "Sched", "Await", "Idle", "Dead"} /\ \A a \in 1..NA 
 View == <<s, m>>
 
 Cap2(n) == IF n > 2 THEN 2 ELSE n
+Cap4(n) == IF n > 4 THEN 4 ELSE n
 AbsState(st) ==
     <<st.pc, st.enabled, st.cur.task, st.cur.first,
-      [a \in 1..NA |-> <<st.A[a].exists, [n \in DOMAIN st.A[a].auto |-> st.A[a].auto[n].st],
-                         Cap2(st.A[a].auto.integ.last \div 1000), st.A[a].integDone, st.A[a].evAvail,
+      [a \in 1..NA |-> <<st.A[a].exists, [n \in DOMAIN st.A[a].auto |-> <<st.A[a].auto[n].st, Cap4(st.A[a].auto[n].last \div 1000)>>],
+                         st.A[a].integDone, st.A[a].evAvail,
                          Cap2(Len(st.A[a].queue)), Len(st.A[a].polls), st.A[a].lastUnsol.has>>],
-      st.prio, st.idleUntil # NoTime>>
+      st.prio, st.idleUntil # NoTime, st.nsess, st.everInteg>>
 InKind(h) == IF h = <<>> THEN <<"init">>
              ELSE LET i == h[Len(h)]
                   IN CASE i.k = "rx" -> <<"rx", i.f.fc, i.f.fir, i.f.fin, i.f.con, i.f.src, i.f.iin, i.f.body,
                                           i.f.seq = CurSeq(s)>>
                        [] i.k = "req" -> <<"req", i.m.k, IF i.m.k = "task" THEN i.m.task.t ELSE "", i.m.a>>
-                       [] i.k = "adv" -> <<"adv", i.dt > 50>>
+                       [] i.k = "adv" -> <<"adv", i.dt > 50, i.dt > 700>>
                        [] OTHER -> <<i.k>>
 CoverView == <<AbsState(s), InKind(hist)>>
 ExportAll == hist = <<>> \/ PrintT(<<"SCENARIO", ToJson(hist)>>)
@@ -138,8 +141,10 @@ Cfg_quiet1 == <<A_quiet(1024)>>
 Cfg_full1 == <<A_full(1024)>>
 Cfg_quiet2 == <<A_quiet(1024), A_quiet(1025)>>
 Cfg_ka2 == <<A_ka(1024), A_quiet(1025)>>
+Cfg_quiet3 == <<A_quiet(1024), A_quiet(1025), A_quiet(1026)>>
 DEVM_none == {}
 DEVM_d9 == {"NoConfirmForNonRead"}
+DEVM_d18 == {"LinkStatusTimeoutRearms"}
 \* hypothetical deviations: the monitors must find each of them (sensitivity of the monitors)
 DEVM_h1 == {"H_AnySeq"}
 DEVM_h2 == {"H_OperateAnyReply"}
